@@ -9,6 +9,7 @@
 From Coq Require Import List ZArith NArith String Bool Lia.
 From SCC Require Import Base.Sexp Lang.CoreSyn Sem.AxSem Sem.CoreSem Model.Backend Model.Uniquify Model.Focus
      Model.FocusCheck Proof.FocusExamples Proof.FocusSim Proof.FocusRun Proof.FocusFrag Proof.FocusPres Proof.UqAeq.
+From SCC Require Import Model.FocusGuard.
 Import ListNotations.
 Open Scope string_scope.
 Open Scope Z_scope.
